@@ -35,7 +35,7 @@ pub fn run(cx: &mut Ctx) {
                     // accepted lengths 16..=64
                     for len in 16..=64usize {
                         let want = na::kdf_derive(len, id, &ctx8, &key).expect("libsodium accepts 16..=64");
-                        let mut out = vec![0u8; len];
+                        let mut out = stale(len);
                         let case = || json!({"op":"crypto_kdf_derive_from_key","len":len,"id":id.to_string(),"ctx":hx(&ctx8),"key":hx(&key)});
                         cx.key(&format!("{} {} {} {} {}", rep, kn, cn, idc, len));
                         cx.cover("subkey_len", &format!("{}", len));
@@ -68,7 +68,7 @@ pub fn run(cx: &mut Ctx) {
                     }
                     // rejected lengths
                     for len in (0..=15usize).chain(65..=80) {
-                        let mut out = vec![0u8; len];
+                        let mut out = stale(len);
                         let case = || json!({"op":"crypto_kdf_derive_from_key","len":len});
                         cx.cover("rejected_len", &format!("{}", len));
                         if let Some(r) = call(cx, "C12|crypto_kdf_derive_from_key", "crypto_kdf_derive_from_key", case, || crypto_kdf_derive_from_key(&mut out, id, &ctx8, &key)) {
@@ -78,9 +78,9 @@ pub fn run(cx: &mut Ctx) {
                     }
                     // different id / context give different subkeys (32 bytes)
                     {
-                        let mut a = [0u8; 32];
-                        let mut b = [0u8; 32];
-                        let mut c = [0u8; 32];
+                        let mut a = stale_arr::<32>();
+                        let mut b = stale_arr::<32>();
+                        let mut c = stale_arr::<32>();
                         let id2 = id ^ (1u64 << rng.below(64));
                         let mut ctx2 = ctx8;
                         ctx2[rng.below(8)] ^= 1 << rng.below(8);
